@@ -27,7 +27,7 @@ Theorem C04_step_follows_rule :
   StepRule action run s st pending (outcome_of (step action run s st pending)).
 Proof. exact (step_rule action run). Qed.
 
-(** and the rule admits no other outcome: it is a complete description *)
+(** and the rule allows no other outcome: it is a complete description *)
 Theorem C04_rule_determines_step :
   forall s st pending o,
   StepRule action run s st pending o -> outcome_of (step action run s st pending) = o.
